@@ -8,7 +8,7 @@
    same function on every generated program.  Class hierarchies, MROs and call chains are arbitrary
    (induction on the fuel of the call chain); OutOfFuel is excluded by `resolve .. = Ok R` and by the
    conclusion (CFuel is not a good outcome). *)
-From JV Require Import Lib.Base Model.Kwargs Model.KwargsGuard Spec.KwargsSpec Proofs.KwargsProofs.
+From JV Require Import Lib.Base Model.Kwargs Model.KwargsGuard Model.C13KwargsFx Spec.KwargsSpec Proofs.KwargsProofs Proofs.C13FxProofs Proofs.C13FxTransfer.
 
 (* ---- witnesses (the Python source each term was printed from is in the comment) ------------- *)
 (*
@@ -258,22 +258,26 @@ Theorem C13_inherited_init_refuted :
                 /\ In n (map fst (snd (call 40 P c [n]))) /\ klass_top 40 P c = 2%N.
 Proof. exists P_inherited_init, 2, [98]%N. vm_compute. auto. Qed.
 
-(* 3: a pop key that is also hard-coded at the call: legal, received by the pop, not offered;
-      a get key hard-coded at a call whose callee swallows it: offered, refused *)
-Theorem C13_popget_hardcoded_refuted :
-  (exists P c R n, resolve 40 P c = Ok R /\ ~ In n (names R) /\ fst (call 40 P c [n]) = COk
-                   /\ In n (map fst (snd (call 40 P c [n]))) /\ klass_top 40 P c = 3%N)
-  /\ (exists P c R n, resolve 40 P c = Ok R /\ In n (names R) /\ fst (call 40 P c [n]) = CMultiple
-                      /\ klass_top 40 P c = 3%N).
+(* 1b: a get key that is hard-coded at the forwarding call is still in the forwarded dict: offered
+       (the callee swallows it in its own **kwargs, so it is not recorded as removed), refused with
+       "multiple values for keyword argument" — the same root cause as 1 *)
+Theorem C13_get_hardcoded_refuted :
+  exists P c R n, resolve 40 P c = Ok R /\ In n (names R) /\ fst (call 40 P c [n]) = CMultiple
+                  /\ klass_top 40 P c = 1%N.
+Proof. exists P_get_hardcoded_swallowed, 0,
+         ltac:(let r := eval vm_compute in (resolve 40 P_get_hardcoded_swallowed 0) in
+               match r with Ok ?x => exact x end), [98]%N.
+       vm_compute. auto. Qed.
+
+(* 3: a key popped before the forwarding call that is also hard-coded at the call: legal, received by
+      the pop, not offered (removed_params is applied to the pop parameter too) *)
+Theorem C13_pop_hardcoded_refuted :
+  exists P c R n, resolve 40 P c = Ok R /\ ~ In n (names R) /\ fst (call 40 P c [n]) = COk
+                  /\ In n (map fst (snd (call 40 P c [n]))) /\ klass_top 40 P c = 3%N.
 Proof.
-  split.
-  - exists P_popget_hardcoded, 1, ltac:(let r := eval vm_compute in (resolve 40 P_popget_hardcoded 1) in
-                                        match r with Ok ?x => exact x end), [97]%N.
-    vm_compute. repeat split; auto. intros [H|[]]. discriminate.
-  - exists P_get_hardcoded_swallowed, 0,
-      ltac:(let r := eval vm_compute in (resolve 40 P_get_hardcoded_swallowed 0) in
-            match r with Ok ?x => exact x end), [98]%N.
-    vm_compute. auto.
+  exists P_popget_hardcoded, 1, ltac:(let r := eval vm_compute in (resolve 40 P_popget_hardcoded 1) in
+                                      match r with Ok ?x => exact x end), [97]%N.
+  vm_compute. repeat split; auto. intros [H|[]]. discriminate.
 Qed.
 
 (* 4: self.m0 is resolved on the class being visited, the interpreter calls the override *)
@@ -296,3 +300,47 @@ Example C13_hardcoded_example :
   option_map names (match resolve 40 P_hardcoded 1 with Ok r => Some r | Err _ => None end)
     = Some [[99]; [98]]%N /\ fst (call 40 P_hardcoded 1 [[97]]%N) = CMultiple.
 Proof. vm_compute. auto. Qed.
+
+(* ---- the repairs of fixes/C13-*.patch (Model/C13KwargsFx.v) --------------------------------------
+   On the four witnesses above the repaired resolver offers exactly what the interpreter accepts
+   (Spec.exact_b: sound, complete, type and default), and it leaves finding 1 as it is. *)
+Definition exact_fx (fx : fixes) (P : prog) (c : nat) : bool :=
+  match resolve_fx fx 40 P c with Ok R => exact_b 40 P c R | Err _ => false end.
+
+Theorem C13_repairs_close_witnesses :
+  exact_fx no_fixes P_inherited_init 2 = false /\ exact_fx all_fixes P_inherited_init 2 = true /\
+  exact_fx no_fixes P_popget_hardcoded 1 = false /\ exact_fx all_fixes P_popget_hardcoded 1 = true /\
+  exact_fx no_fixes P_method_override 1 = false /\ exact_fx all_fixes P_method_override 1 = true /\
+  exact_fx no_fixes P_cond_crash 2 = false /\ exact_fx all_fixes P_cond_crash 2 = true /\
+  exact_fx all_fixes P_get_then_forward 1 = false /\ exact_fx all_fixes P_get_hardcoded_swallowed 0 = false /\
+  klass_top_fx all_fixes 40 P_get_then_forward 1 = 1%N /\
+  exact_fx all_fixes P_diamond 3 = true.
+Proof. vm_compute. repeat split; reflexivity. Qed.
+Print Assumptions C13_repairs_close_witnesses.
+
+(* the flagged model with no flag set is the faithful model, and its guard is the guard of the theorems:
+   Model/C13KwargsFx.v is a conservative extension (every program, every fuel) *)
+Theorem C13_fx_conservative :
+  forall (fuel : nat) (P : prog) (c : nat),
+    resolve_fx no_fixes fuel P c = resolve fuel P c /\
+    klass_top_fx no_fixes fuel P c = klass_top fuel P c.
+Proof. exact (fun fuel P c => conj (resolve_nofx fuel P c) (klass_top_nofx fuel P c)). Qed.
+Print Assumptions C13_fx_conservative.
+
+(* inside the guard the four repairs change nothing (every program, every fuel): the repaired resolver
+   returns what the faithful model returns, hence C13_resolver_sound holds of the repaired resolver too *)
+Theorem C13_repairs_preserve_guarded :
+  forall (fuel : nat) (P : prog) (c : nat),
+    klass_top fuel P c = 0%N -> resolve_fx all_fixes fuel P c = resolve fuel P c.
+Proof. exact fx_same_in_guard_top. Qed.
+Print Assumptions C13_repairs_preserve_guarded.
+
+Theorem C13_resolver_sound_repaired :
+  forall (fuel : nat) (P : prog) (c : nat) (R : list rparam) (kws : list str),
+    klass_top fuel P c = 0%N ->
+    resolve_fx all_fixes fuel P c = Ok R ->
+    NoDup kws ->
+    (forall n, In n kws -> In n (names R)) ->
+    good_outcome (fst (call fuel P c kws)) = true.
+Proof. exact sound_class_fx. Qed.
+Print Assumptions C13_resolver_sound_repaired.
